@@ -106,8 +106,9 @@ CLAIMED = {
                      "0 when disjoint); get_volume, _get_volume_intersection and the IoU classes compute I/(A+B-I) and I*H/(V1+V2-I*H) with the stated None/0 cases, BEV IoU in [0,1], "
                      "0 iff no overlap, 1 for coinciding footprints. Lemmas over those formulas for all reals: 3-D IoU in [0,1] and never above BEV IoU, 1 for identical boxes, "
                      "symmetry given a symmetric intersection, squared centre distance invariant under common rotation + translation.",
-                note="Relative to an assumed shapely contract (intersection area is a function of the two footprints within [0, min area]; footprint area positive) and assumed numpy "
-                     "vector contracts. That the clipped polygon is the true intersection, the rotated footprint, plane distance (numpy argsort / fancy indexing) and 2-D ROIs are "
+                note="_get_area_intersection and get_area_bev are verified too: the result is shapely's intersection area of the two world footprints / the area of the object's footprint "
+                     "(an early exit or a different polygon fails the postcondition). Assumed at the library boundary (externals/poly.py): intersection area is a function of the two "
+                     "polygons within [0, min area]; get_footprint() has the area of the object-frame footprint; numpy vector contracts. That the clipped polygon is the true intersection, the rotated footprint, plane distance (numpy argsort / fancy indexing) and 2-D ROIs are "
                      "decided only by the bounded native harness (independent Sutherland-Hodgman clipper, 400 box pairs + 300 ROI pairs per run). Floats as reals.", ref="5/C06"),
     "C12": dict(text="Relative to ONE assumed contract (common.point.crop_pointcloud selects exactly the points on the requested side of the prism), the real code is verified with point "
                      "clouds as abstract point sets: DynamicObject.crop_pointcloud / get_inside_pointcloud_num / point_exist use the object's own corners at the given scale and the "
